@@ -341,7 +341,7 @@ def main():
     # ---- (A) faithfulness + model correspondence
     casesA = [("a%d" % i, faithful_case(rng, i, T)) for i in range(500 if T else 60)]
     # the copy must accept what the original accepts (row named like the invented objective name)
-    casesA.append(("aobj", ["CREATE h0 p MIN", "NEWCOL h0 1 0 1 x", "NEWROW h0 1 L r", "DUMP h0", "COPY h0 h1 thecopy", "DUMP h1", "Q h1 rowidx obj", "NEWROW h0 2 G obj", "NEWROW h1 2 G obj",
+    casesA.append(("aobj", ["CREATE h0 p MIN", "NEWCOL h0 1 0 1 x", "NEWROW h0 1 L r", "DUMP h0", "COPY h0 h1 thecopy", "DUMP h1", "NEWROW h0 2 G obj", "NEWROW h1 2 G obj",
                             "DUMP h0", "DUMP h1", "COPY h1 h2 c2", "NEWROW h2 3 E obj_0", "DUMP h2"]))
     M, crec, mrec, crashes = run_cases_both(casesA, per_case_timeout=120)
     Mq = F(M)
@@ -365,8 +365,14 @@ def main():
             phase = "before-copy" if k < copy_at else ("at-copy" if k <= copy_at + 9 else "after-copy")
             if phase == "before-copy":
                 continue        # not C16's business (C06)
+            whatkey = what + (":" + o[1] if o[0] in ("Q", "DUMP") else "")
+            if what == "Q:params":
+                # which parameters differ: the limits (5 iterations, 6 time, 8/9 objective limits) are the known finding, anything else is new
+                pc, pm = rec_payload(crec[cid][k + 1]), rec_payload(mrec[cid][k + 1])
+                ids = [a.split("=")[0] for a, b in zip(pc, pm) if a != b]
+                whatkey += ":limits" if set(ids) <= {"5", "6", "8", "9"} else ":" + ",".join(ids)
             report("copy-" + kind, cid, "op %d `%s` (%s): %s" % (k, ops[k][:60], phase, detail), "\n".join(ops[:k + 1]),
-                   dict(kind="copy-" + kind, what=what + (":" + o[1] if o[0] in ("Q", "DUMP") else "")))
+                   dict(kind="copy-" + kind, what=whatkey))
             break
     # ---- (B) independence under solves and frees (ASan, forked)
     casesB = []
